@@ -1,3 +1,4 @@
+pub mod bvobs;
 pub mod gens;
 pub mod jrn;
 pub mod refm;
